@@ -141,6 +141,7 @@ class VM:
         self.unproven = False     # path passed through a side whose feasibility z3 could not decide
         self.universe = []        # byte strings in existence (for the freshness of ideal-function outputs)
         self.run_bytes = []       # (run id, offset term, byte term): bytes read from inside opaque runs
+        self.ideal_log = []       # (function name, output bytes) of every new ideal-function call, in order
         self.notes = []
 
     def explore(self, entry, max_paths=10 ** 9, on_path=None, deadline=None):
@@ -534,6 +535,11 @@ class VM:
         for rid, off, b in self.run_bytes:
             o = int(z3.evaluate(off, model)) if z3.is_expr(off) else off
             named[f'runbyte|{rid}|{o}'] = int(z3.evaluate(b, model))
+        counts = {}
+        for fname, hout in self.ideal_log:
+            k = counts.get(fname, 0)
+            counts[fname] = k + 1
+            named[f'ideal|{fname}|{k}'] = bytes(int(z3.evaluate(x, model)) if z3.is_expr(x) else x for x in hout.a).hex()
         for name, (kind, t) in self.named.items():
             v = z3.evaluate(t, model)
             named[name] = bool(v) if kind == 'bool' else int(v)
@@ -1913,8 +1919,23 @@ class VM:
         if isinstance(o, dict):
             r = self.dict_find(o, k)
             if r is MISSING:
+                if hasattr(type(o), '__missing__') and not is_sym(k):
+                    return o[k]                 # defaultdict and friends
                 raise KeyError(k if not is_sym(k) else '<sym>')
             return r
+        if isinstance(o, (str, bytes)) and isinstance(k, SInt) and 0 < len(o) <= 4096:
+            # constant table, symbolic index: one in-range decision, then an ite chain
+            n = len(o)
+            if self.truth(mk_bool(z3.Or(k.e >= n, k.e < -n))):
+                raise IndexError('string index out of range')
+            idx = k.e
+            if self.truth(mk_bool(idx < 0)):
+                idx = z3.simplify(idx + n)
+            vals = [ord(c) for c in o] if isinstance(o, str) else list(o)
+            t = z3.Select(idx, vals)
+            return ms.mk_str([t]) if isinstance(o, str) else mk_int(t)
+        if isinstance(o, (list, tuple)) and isinstance(k, SInt) and len(o) > 64 and all(isinstance(x, str) for x in o):
+            return ms.table_item(self, o, k)
         if isinstance(o, (list, tuple, bytes, bytearray, str)):
             n = len(o)
             if isinstance(k, slice):
